@@ -10,7 +10,7 @@ set_option linter.unusedVariables false
 
 namespace Spydr.Xform
 
-theorem fLoop_invAB {d0 : Design} (hyp : Hyp d0) (fuel : Nat) : ∀ (s : FState) (moved : List Inst),
+theorem fLoop_invAB {d0 : Design} (hyp : Hyp d0) (hnamed : Named d0) (fuel : Nat) : ∀ (s : FState) (moved : List Inst),
     FInvA d0 s moved → FInvB d0 s moved →
     ∃ moved', FInvA d0 (fLoop fuel s) moved' ∧ FInvB d0 (fLoop fuel s) moved' := by
   induction fuel with
@@ -22,7 +22,7 @@ theorem fLoop_invAB {d0 : Design} (hyp : Hyp d0) (fuel : Nat) : ∀ (s : FState)
     | nil => exact ⟨moved, a, b⟩
     | cons e rest =>
       obtain ⟨q, iid, pn⟩ := e
-      obtain ⟨moved', a', b'⟩ := FInvB.step hyp a b
+      obtain ⟨moved', a', b'⟩ := FInvB.step hyp hnamed a b
       exact ih _ moved' a' b'
 
 theorem FInvB.init {d0 : Design} (hyp : Hyp d0) : FInvB d0 (fInit d0) [] where
